@@ -332,6 +332,7 @@ where
 {
     /// Creates a new set of keys.
     pub fn new(from_keys: Vec<K>) -> Self {
+        let initial_len = from_keys.len();
         let mut keys = FxHashMap::with_capacity_and_hasher(
             from_keys.len(),
             Default::default(),
@@ -343,7 +344,11 @@ where
 
         Self {
             spare_keys: Vec::new(),
-            current_key: 0,
+            // the initial keys occupy the segments `0..initial_len`, so the most recently
+            // used segment is `initial_len - 1`: `next_key()` must continue after it,
+            // otherwise keys added later share a path segment (and so the triggers) of
+            // one of the initial items
+            current_key: initial_len.saturating_sub(1),
             keys,
         }
     }
